@@ -6,6 +6,7 @@ variables ranging over the atoms (so aliasing is explored), vectors of length 0.
 -1..len+2 or i64::MAX.  Oracle: a reference store model -- returned value, Err exactly for out-of-range indices /
 improper lists, frame condition (no other cell changes), identity (stored pointers are the argument pointers).
 """
+import re
 import z3
 from mirsym.values import *
 from mirsym.explore import explore
@@ -606,7 +607,19 @@ def native_verdict(replay, req):
     replay.ask('newvm')
     out = replay.ask('evalc ' + hexs(text))
     if out.startswith(('PANIC', 'ABORT')): return True, '%s: %s' % (text, out)
-    if want[0] == 'err': return not out.startswith('ERR'), '%s => %s, expected an error' % (text, out)
+    if want[0] == 'err':
+        if not out.startswith('ERR'): return True, '%s => %s, expected an error' % (text, out)
+        if req['shape'][0] == 'vector-copy!':
+            # an error must not be a partial write: rebuild the vectors as globals, run the failing call, look at them afterwards
+            m = re.match(r'(.*)\(let \(\(t (.*)\) \(f (\(vector[^()]*\))\)\) (\(vector-copy! .*\)) \(list t f\)\)$', text)
+            if m:
+                pre, tv, fv, call = m.groups()
+                replay.ask('newvm'); replay.ask('eval ' + hexs(pre + '(define t %s) (define f %s)' % (tv, fv)))
+                before = replay.ask('evalc ' + hexs('(list t f)'))
+                replay.ask('eval ' + hexs(call))
+                after = replay.ask('evalc ' + hexs('(list t f)'))
+                if before != after: return True, '%s reports an error but has already written: (list t f) was %s, is %s' % (call, before[3:], after[3:])
+        return False, '%s => %s, expected an error' % (text, out)
     if out.startswith('ERR'): return True, '%s => error "%s", expected %s' % (text, unhexs(out.split()[2]), want[1])
     return out[3:] != want[1], '%s => %s, expected %s' % (text, out[3:], want[1])
 
